@@ -105,6 +105,7 @@ def run_one(ch, nproc, rounds, stale, die, prefork=False):
     lockfile.symlink, lockfile.readlink, lockfile.rmlink, lockfile.kill = fs.symlink, fs.readlink, fs.rmlink, fs.kill
     lockfile.os = _OSProxy(saved["os"], fs)
     holders, bad, acquired = set(), [], []
+    died_at, attempts = [], []     # scheduler step of the death; (start step, got) of every lock() call
 
     # prefork: the FilesystemLock objects are constructed by a parent process that has exited by the
     # time its children call lock() (daemonising); the lock must record the pid of the process that locks
@@ -115,8 +116,10 @@ def run_one(ch, nproc, rounds, stale, die, prefork=False):
             pid = 100 + i
             for r in range(rounds):
                 l = pre[i][r] if pre else lockfile.FilesystemLock("L")
+                started = s.steps
                 try:
                     got = l.lock()
+                    attempts.append((started, bool(got)))
                 except OSError as e:
                     bad.append(("lock-raised", "P%d lock() raised %r" % (i, e)))
                     return
@@ -132,6 +135,7 @@ def run_one(ch, nproc, rounds, stale, die, prefork=False):
                         # the process dies inside its critical section: lock left behind
                         holders.discard(i)
                         fs.alive.discard(pid)
+                        died_at.append(s.steps)
                         return
                     holders.discard(i)
                     try:
@@ -159,8 +163,10 @@ def run_one(ch, nproc, rounds, stale, die, prefork=False):
         need = 2 if (die and stale) else 1
         if len(acquired) < 1:
             bad.append(("stale-lock-never-acquired", "no process acquired although the only lock was left by a dead process"))
-        if die and acquired == [0] and nproc > 1 and rounds > 1:
-            bad.append(("stale-lock-never-acquired", "lock left by the process that died was never acquired by a later lock()"))
+        later = [got for (started, got) in attempts if died_at and started > died_at[0]]
+        if later and not any(later):
+            # only lock() calls that began after the holder died are judged (earlier ones rightly saw a live holder)
+            bad.append(("stale-lock-never-acquired", "lock left by the process that died was not acquired by a lock() call made after its death"))
     # root-cause classification: a stale-lock breaker removed a lock owned by a live process
     out = []
     for sig, d in bad:
